@@ -157,6 +157,9 @@ proofs/InvFacts.vos proofs/InvFacts.vok proofs/InvFacts.required_vos: proofs/Inv
 proofs/IterFacts.vo proofs/IterFacts.glob proofs/IterFacts.v.beautified proofs/IterFacts.required_vo: proofs/IterFacts.v spec/Rules.vo base/Bits.vo base/Types.vo base/BitBoard.vo geom/Geometry.vo model/Board.vo model/MoveGen.vo proofs/BitsFacts.vo proofs/BitBoardFacts.vo spec/IterSpec.vo
 proofs/IterFacts.vio: proofs/IterFacts.v spec/Rules.vio base/Bits.vio base/Types.vio base/BitBoard.vio geom/Geometry.vio model/Board.vio model/MoveGen.vio proofs/BitsFacts.vio proofs/BitBoardFacts.vio spec/IterSpec.vio
 proofs/IterFacts.vos proofs/IterFacts.vok proofs/IterFacts.required_vos: proofs/IterFacts.v spec/Rules.vos base/Bits.vos base/Types.vos base/BitBoard.vos geom/Geometry.vos model/Board.vos model/MoveGen.vos proofs/BitsFacts.vos proofs/BitBoardFacts.vos spec/IterSpec.vos
+proofs/KingFacts.vo proofs/KingFacts.glob proofs/KingFacts.v.beautified proofs/KingFacts.required_vo: proofs/KingFacts.v base/Bits.vo base/Types.vo base/BitBoard.vo base/Sweep.vo geom/Geometry.vo model/Board.vo model/MoveGen.vo model/Apply.vo spec/Rules.vo proofs/BitsFacts.vo proofs/BitBoardFacts.vo proofs/BridgeFacts.vo spec/IterSpec.vo proofs/HashFacts.vo proofs/InvFacts.vo proofs/LegalDefs.vo proofs/AttackDefs.vo
+proofs/KingFacts.vio: proofs/KingFacts.v base/Bits.vio base/Types.vio base/BitBoard.vio base/Sweep.vio geom/Geometry.vio model/Board.vio model/MoveGen.vio model/Apply.vio spec/Rules.vio proofs/BitsFacts.vio proofs/BitBoardFacts.vio proofs/BridgeFacts.vio spec/IterSpec.vio proofs/HashFacts.vio proofs/InvFacts.vio proofs/LegalDefs.vio proofs/AttackDefs.vio
+proofs/KingFacts.vos proofs/KingFacts.vok proofs/KingFacts.required_vos: proofs/KingFacts.v base/Bits.vos base/Types.vos base/BitBoard.vos base/Sweep.vos geom/Geometry.vos model/Board.vos model/MoveGen.vos model/Apply.vos spec/Rules.vos proofs/BitsFacts.vos proofs/BitBoardFacts.vos proofs/BridgeFacts.vos spec/IterSpec.vos proofs/HashFacts.vos proofs/InvFacts.vos proofs/LegalDefs.vos proofs/AttackDefs.vos
 proofs/LegalDefs.vo proofs/LegalDefs.glob proofs/LegalDefs.v.beautified proofs/LegalDefs.required_vo: proofs/LegalDefs.v base/Bits.vo base/Types.vo base/BitBoard.vo geom/Geometry.vo model/Board.vo model/MoveGen.vo model/Apply.vo spec/Rules.vo spec/IterSpec.vo proofs/HashFacts.vo proofs/InvFacts.vo
 proofs/LegalDefs.vio: proofs/LegalDefs.v base/Bits.vio base/Types.vio base/BitBoard.vio geom/Geometry.vio model/Board.vio model/MoveGen.vio model/Apply.vio spec/Rules.vio spec/IterSpec.vio proofs/HashFacts.vio proofs/InvFacts.vio
 proofs/LegalDefs.vos proofs/LegalDefs.vok proofs/LegalDefs.required_vos: proofs/LegalDefs.v base/Bits.vos base/Types.vos base/BitBoard.vos geom/Geometry.vos model/Board.vos model/MoveGen.vos model/Apply.vos spec/Rules.vos spec/IterSpec.vos proofs/HashFacts.vos proofs/InvFacts.vos
@@ -169,6 +172,9 @@ proofs/PawnFacts.vos proofs/PawnFacts.vok proofs/PawnFacts.required_vos: proofs/
 proofs/PlayableFacts.vo proofs/PlayableFacts.glob proofs/PlayableFacts.v.beautified proofs/PlayableFacts.required_vo: proofs/PlayableFacts.v base/Bits.vo base/Types.vo base/BitBoard.vo base/Sweep.vo geom/Geometry.vo model/Board.vo spec/Rules.vo model/Fen.vo proofs/FenFacts.vo proofs/BitsFacts.vo proofs/BitBoardFacts.vo proofs/BridgeFacts.vo
 proofs/PlayableFacts.vio: proofs/PlayableFacts.v base/Bits.vio base/Types.vio base/BitBoard.vio base/Sweep.vio geom/Geometry.vio model/Board.vio spec/Rules.vio model/Fen.vio proofs/FenFacts.vio proofs/BitsFacts.vio proofs/BitBoardFacts.vio proofs/BridgeFacts.vio
 proofs/PlayableFacts.vos proofs/PlayableFacts.vok proofs/PlayableFacts.required_vos: proofs/PlayableFacts.v base/Bits.vos base/Types.vos base/BitBoard.vos base/Sweep.vos geom/Geometry.vos model/Board.vos spec/Rules.vos model/Fen.vos proofs/FenFacts.vos proofs/BitsFacts.vos proofs/BitBoardFacts.vos proofs/BridgeFacts.vos
+proofs/SafeFacts.vo proofs/SafeFacts.glob proofs/SafeFacts.v.beautified proofs/SafeFacts.required_vo: proofs/SafeFacts.v base/Bits.vo base/Types.vo base/BitBoard.vo base/Sweep.vo geom/Geometry.vo model/Board.vo model/Fen.vo model/MoveGen.vo model/Apply.vo spec/Rules.vo proofs/BitsFacts.vo proofs/BitBoardFacts.vo proofs/SiteFacts.vo proofs/BridgeFacts.vo proofs/ApplyFacts.vo proofs/FenFacts.vo proofs/CoreFacts.vo spec/IterSpec.vo proofs/HashFacts.vo proofs/InvFacts.vo proofs/LegalDefs.vo
+proofs/SafeFacts.vio: proofs/SafeFacts.v base/Bits.vio base/Types.vio base/BitBoard.vio base/Sweep.vio geom/Geometry.vio model/Board.vio model/Fen.vio model/MoveGen.vio model/Apply.vio spec/Rules.vio proofs/BitsFacts.vio proofs/BitBoardFacts.vio proofs/SiteFacts.vio proofs/BridgeFacts.vio proofs/ApplyFacts.vio proofs/FenFacts.vio proofs/CoreFacts.vio spec/IterSpec.vio proofs/HashFacts.vio proofs/InvFacts.vio proofs/LegalDefs.vio
+proofs/SafeFacts.vos proofs/SafeFacts.vok proofs/SafeFacts.required_vos: proofs/SafeFacts.v base/Bits.vos base/Types.vos base/BitBoard.vos base/Sweep.vos geom/Geometry.vos model/Board.vos model/Fen.vos model/MoveGen.vos model/Apply.vos spec/Rules.vos proofs/BitsFacts.vos proofs/BitBoardFacts.vos proofs/SiteFacts.vos proofs/BridgeFacts.vos proofs/ApplyFacts.vos proofs/FenFacts.vos proofs/CoreFacts.vos spec/IterSpec.vos proofs/HashFacts.vos proofs/InvFacts.vos proofs/LegalDefs.vos
 proofs/ScoreOrder.vo proofs/ScoreOrder.glob proofs/ScoreOrder.v.beautified proofs/ScoreOrder.required_vo: proofs/ScoreOrder.v model/Score.vo
 proofs/ScoreOrder.vio: proofs/ScoreOrder.v model/Score.vio
 proofs/ScoreOrder.vos proofs/ScoreOrder.vok proofs/ScoreOrder.required_vos: proofs/ScoreOrder.v model/Score.vos
